@@ -1,6 +1,6 @@
 (* C17 - only eligible files are sent, each version once, changed files again. *)
 From Coq Require Import List ZArith Bool.
-From STS Require Import Model.Sender Proofs.SenderP.
+From STS Require Import Model.Queue Model.Sender Proofs.SenderP.
 Import ListNotations.
 Open Scope Z_scope.
 
@@ -26,3 +26,21 @@ Theorem C17_unchanged_not_requeued : forall disabled ih hi min_age mtime f,
   fi_cached f = Some (fi_size f, mtime) -> scan_returns disabled ih hi min_age mtime f = false.
 Proof. exact unchanged_not_requeued. Qed.
 Print Assumptions C17_unchanged_not_requeued.
+
+(* over histories: whatever happened before (any sequence of scans over any
+   trees, clocks, disable-marker states), a scan returns exactly the files that
+   are eligible now and whose (size, mtime) differs from the version of that name
+   that was returned last - older, newer, larger or smaller *)
+Theorem C17_scan_history : forall pre cfg now world post,
+  nth (length pre) (scan_run (pre ++ (cfg, now, world) :: post) []) [] =
+  filter (fun d => eligible cfg now d &&
+                   changed_since (last_returned (scan_run pre []) (df_name d) None) d) world.
+Proof. exact scan_history. Qed.
+Print Assumptions C17_scan_history.
+
+Theorem C17_returned_then_unchanged_skipped : forall pre cfg now world cfg' now' world' post d,
+  In d (nth (length pre) (scan_run (pre ++ (cfg, now, world) :: (cfg', now', world') :: post) []) []) ->
+  NoDup (map df_name world) ->
+  ~ In d (nth (S (length pre)) (scan_run (pre ++ (cfg, now, world) :: (cfg', now', world') :: post) []) []).
+Proof. exact returned_then_unchanged_skipped. Qed.
+Print Assumptions C17_returned_then_unchanged_skipped.
